@@ -171,6 +171,16 @@ def run(ctx):
                 vcases.append({"w": wire.case("verify_signable", {"signatures": sigs, "signed": new}, [PUBHEX[k]], 1, gpg),
                                "meta": {"s": "edit", "edit": tag, "same": same}})
 
+    # a stale signature next to a fresh one: sign by A (and B), edit, sign again by B only -- B alone must carry threshold 1 against [A, B]
+    for c, (io, _) in zip(cases, impl):
+        if io.startswith("O") and c["meta"].get("edit") not in (None, "same") and c["meta"]["pi"] == -3:
+            _, pl, s1, new, s2 = wire.dec(c["w"])
+            env = wire.dec(io[1:])
+            allk = [PUBHEX[SEEDS.index(sd)] for sd in dict.fromkeys(list(s1) + list(s2))]
+            for t in (1, len(set(s2)), len(set(s2)) + 1):
+                if t >= 1:
+                    vcases.append({"w": wire.case("verify_signable", env, allk, t, False), "meta": {"s": "threshold", "edit": None}})
+
     def voracle(c, io):
         _, env, K, t, gpg = wire.dec(c["w"])
         n = len(E.counting_keys(env, K, bool(gpg)))
